@@ -54,4 +54,12 @@ openssl x509 -req -in leaf3.csr -CA selfca.pem -CAkey selfca_key.pem -sha256 -se
   -not_before 20200101000000Z -not_after 20210101000000Z \
   -extfile evil.cnf -extensions v3_leaf -out leaf3.pem
 cat leaf3.pem selfca.pem > leaf3_chain.pem
-rm -f leaf.csr leaf2.csr leaf3.csr
+# 5. control for demo4: EXPIRED leaf (2020-2021) issued by the TRUSTED test CA
+#    (testkeys/EC/256_EC_CA.pem, its key is in the tree): expiry is its only defect
+TK=../../../testkeys/EC
+openssl ecparam -name prime256v1 -genkey -noout -out leaf4_key.pem
+openssl req -new -key leaf4_key.pem -subj "/C=XX/O=Honest/CN=victim.example.com" -config evil.cnf -out leaf4.csr
+openssl x509 -req -in leaf4.csr -CA $TK/256_EC_CA.pem -CAkey $TK/256_EC_CA_KEY.pem -sha256 -set_serial 5 \
+  -not_before 20200101000000Z -not_after 20210101000000Z \
+  -extfile evil.cnf -extensions v3_leaf -out leaf4.pem
+rm -f leaf.csr leaf2.csr leaf3.csr leaf4.csr
